@@ -61,6 +61,16 @@ func startRaftNode(id uint64, nodeIds []uint64, storage wal.WAL, logger *log.Ent
 	}
 
 	if len(nodeIds) > 0 {
+		fresh, err := isFreshStorage(storage)
+		if err != nil {
+			return nil, err
+		}
+		if !fresh {
+			// The group already has state on this node: this is a restart.
+			// Bootstrapping again would reset the term and append a second
+			// set of bootstrap entries on top of the existing log.
+			return etcdRaft.RestartNode(raftConfig), nil
+		}
 		var peers []etcdRaft.Peer
 		for _, nodeId := range nodeIds {
 			peers = append(peers, etcdRaft.Peer{ID: nodeId})
@@ -70,6 +80,24 @@ func startRaftNode(id uint64, nodeIds []uint64, storage wal.WAL, logger *log.Ent
 		// Allow the group to join existing cluster
 		return etcdRaft.RestartNode(raftConfig), nil
 	}
+}
+
+// A storage is fresh when nothing was ever written to it: no hard state, no
+// snapshot and only the dummy entry in the log.
+func isFreshStorage(storage wal.WAL) (bool, error) {
+	hardState, _, err := storage.InitialState()
+	if err != nil {
+		return false, err
+	}
+	snapshot, err := storage.Snapshot()
+	if err != nil {
+		return false, err
+	}
+	lastIndex, err := storage.LastIndex()
+	if err != nil {
+		return false, err
+	}
+	return etcdRaft.IsEmptyHardState(hardState) && etcdRaft.IsEmptySnap(snapshot) && lastIndex == 0, nil
 }
 
 func NewRaftGroup(id uuid.UUID, nodeIds []uint64, storage wal.WAL, transport *RaftTransport) (*RaftGroup, error) {
